@@ -64,7 +64,7 @@ def evolve(ctx, prop, mode, features, profile, count, shards, faults="none", ext
 
 
 def standard_plan(ctx, prop, mode=None, faults="none", quick_n=40000, thorough_n=600000, miri_quick=(36, 12), miri_thorough=(640, 32),
-                  need_weak=False, need_cleaners=False, need_fin=False, extra=(), extra_modes=()):
+                  need_weak=False, need_cleaners=False, need_fin=False, extra=(), extra_modes=(), after_faults=False):
     """Random histories over the feature sets / profiles, the directed corpus, Miri, and (thorough) ASan + memcheck."""
     mode = mode or prop
     steps = []
@@ -93,6 +93,13 @@ def standard_plan(ctx, prop, mode=None, faults="none", quick_n=40000, thorough_n
         if ok(FULL):
             steps += evolve(ctx, prop, mode, FULL, "release", max(quick_n // 4, 6000), 3, faults=faults, extra=extra)
             steps += evolve(ctx, prop, mode, FULL, "debug", max(quick_n // 8, 3000), 1, faults=faults, extra=extra)
+        if after_faults and ok(FULL) and faults == "none":
+            # the property also speaks about programs that catch a panic of one of their callbacks: short histories, every
+            # fault point (sampled above 60 per history), this property's oracles on the continuation (attributed to it)
+            short = ["--min-ops", "10", "--max-ops", "40", "--max-fault-points", "60"]
+            steps += native(ctx, prop, mode, FULL, "debug", 500, 2, faults="single", extra=list(extra) + short, tag="flt-")
+            steps += native(ctx, prop, mode, FULL, "release", 500, 1, faults="single", extra=list(extra) + short, tag="flt-")
+            steps += evolve(ctx, prop, mode, FULL, "release", 6000, 1, faults="single", extra=extra)
         if miri_quick:
             steps += miri(ctx, prop, mode, FULL, miri_quick[0], miri_quick[1], faults="none", extra=extra)
     else:
@@ -114,6 +121,12 @@ def standard_plan(ctx, prop, mode=None, faults="none", quick_n=40000, thorough_n
                 steps += exhaust(ctx, prop, mode, NONE, "debug", 7, 8, variant="noweak", faults=faults, timeout=3000)
             if ok(FINONLY):
                 steps += exhaust(ctx, prop, mode, FINONLY, "release", 7, 8, variant="noweak", faults=faults, timeout=3000)
+        if after_faults and ok(FULL) and faults == "none":
+            short = ["--min-ops", "10", "--max-ops", "40", "--max-fault-points", "120"]
+            for profile in ("debug", "release"):
+                steps += native(ctx, prop, mode, FULL, profile, 8000, 4, faults="single", extra=list(extra) + short, tag="flt-", timeout=3000)
+            steps += native(ctx, prop, mode, NOFIN, "debug", 4000, 1, faults="single", extra=list(extra) + short, tag="flt-", timeout=3000)
+            steps += evolve(ctx, prop, mode, FULL, "release", 80000, 4, faults="single", extra=extra, timeout=3000)
         if ok(FULL):
             steps += evolve(ctx, prop, mode, FULL, "release", max(thorough_n // 4, 60000), 12, faults=faults, extra=extra, timeout=3000)
             steps += evolve(ctx, prop, mode, FULL, "debug", max(thorough_n // 10, 20000), 4, faults=faults, extra=extra, timeout=3000)
@@ -160,6 +173,8 @@ def floor_msgs(counters, reqs):
             out.append("%s = %d < %d" % (k, counters.get(k, 0), v))
     return out
 
+
+FAULT_NOTE = ' Because the statement also covers programs that catch a panic raised by one of their own callbacks, short histories (10..40 operations) are additionally re-run once per callback invocation with a panic injected there (at most 60 / 120 points per history, quick / thorough); on the continuation the oracles of this property stay on in their post-fault form (leaks and skipped callbacks tolerated) and their hits are reported under this property.'
 
 EVOLVE_NOTE = ' In addition the novelty-guided mutational generator (harness/src/evolve.rs) derives histories from a corpus (directed corpus + random seeds + every history that showed a new behaviour feature: callback nesting x operation / outcome, hidden-state classes of objects and edges) by small edits; they run under the same oracles and are counted the same way.'
 
